@@ -171,8 +171,7 @@ def v_job_shop(inst: Any, p: Dict[str, Any], ctx: Dict[str, Any]) -> List[Proble
     prefix = np.arange(O)[None, :] < nops[:, None]
     if not np.array_equal(mask, prefix):
         out.append(("padding-not-at-the-end", f"ops_mask={mask.tolist()}"))
-    if (nops == 0).any():
-        out.append(("job-without-operations", f"ops per job {nops.tolist()}"))
+    ctx["count"]["jobshop_jobs_without_operations"] += int((nops == 0).sum())  # not excluded by the docs
     if not (np.asarray(inst.machines_job_ids) == J).all() or np.asarray(inst.machines_remaining_times).any():
         out.append(("machines-not-idle", f"machines_job_ids={np.asarray(inst.machines_job_ids).tolist()}"))
     if (np.asarray(inst.scheduled_times) != -1).any() or _scalar(inst.step_count) != 0:
@@ -242,7 +241,7 @@ def v_cvrp(inst: Any, p: Dict[str, Any], ctx: Dict[str, Any]) -> List[Problem]:
     vm = np.asarray(inst.visited_mask)
     if not vm[0] or vm[1:].any():
         out.append(("visited-mask-not-initial", f"visited_mask={vm.tolist()}"))
-    ctx["count"]["cvrp_max_demand_seen"] = max(ctx["count"]["cvrp_max_demand_seen"], int(d.max()))
+    ctx["facts"]["max_demand_seen"] = max(ctx["facts"].get("max_demand_seen", 0), int(d.max()))
     return out
 
 
